@@ -276,8 +276,23 @@ def F37():
     return (not out, "; ".join(out) or "views / proxies are converted to frozenset / frozendict")
 
 
+def F37b():
+    import collections
+    from automata.tm.mntm import MNTM
+    out = []
+    for name, mk in (("UserList", collections.UserList), ("deque", collections.deque)):
+        dq = mk([("q1", (("1", "R"),))])
+        m = MNTM(states={"q0", "q1"}, input_symbols={"1"}, tape_symbols={"1", "."}, n_tapes=1,
+                 transitions={"q0": {("1",): dq}}, initial_state="q0", blank_symbol=".", final_states={"q1"})
+        before = m.accepts_input("1")
+        dq.clear()
+        if m.accepts_input("1") != before or not isinstance(m.transitions["q0"][("1",)], tuple):
+            out.append(f"{name}: stored as {type(m.transitions['q0'][('1',)]).__name__}, accepts_input('1') {before} -> {m.accepts_input('1')}")
+    return (not out, "; ".join(out) or "sequence look-alikes are converted to tuples")
+
+
 ALL = dict(F12=F12, F1=F1, F19=F19, F2=F2, F3=F3, F4=F4, F5=F5, F6=F6, F7=F7, F8=F8, F9=F9, F11=F11, F12b=F12b, F20=F20, F21=F21, F10a=F10a, F10b=F10b,
-           F22=F22, F27=F27, F28=F28, F29=F29, F30=F30, F15=F15, F33=F33, F36=F36, F37=F37)
+           F22=F22, F27=F27, F28=F28, F29=F29, F30=F30, F15=F15, F33=F33, F36=F36, F37=F37, F37b=F37b)
 
 if __name__ == "__main__":
     names = sys.argv[1:] or list(ALL)
